@@ -20,6 +20,7 @@ import (
 	"github.com/jcmoraisjr/haproxy-ingress/pkg/utils"
 
 	"verif/harness/lib/cfgnorm"
+	"verif/harness/lib/cfgsm"
 	"verif/harness/lib/hx"
 	"verif/harness/lib/pipeline"
 	"verif/harness/lib/world"
@@ -27,7 +28,7 @@ import (
 
 // LoopEv is one scheduled event.
 type LoopEv struct {
-	Kind  string `json:"kind"` // deliver (next batch of cluster changes) | tick | attempt | leader
+	Kind  string `json:"kind"` // deliver (next batch of cluster changes) | tick | attempt | leader | reload (the reload queue fires)
 	Full  bool   `json:"full,omitempty"`
 	Fault string `json:"fault,omitempty"` // attempt: "" | main | crt
 }
@@ -51,16 +52,35 @@ func (r *recInst) HAProxyUpdate(timer *utils.Timer) error {
 }
 
 type controller struct {
-	p    *pipeline.Pipeline
-	inst *recInst
-	rec  *reconciler.IngressReconciler
+	p      *pipeline.Pipeline
+	inst   *recInst
+	svc    *services.Services
+	rec    *reconciler.IngressReconciler
+	master *cfgsm.Master
+	fired  int // reloads of the reload queue already served
 }
 
-func newController(dir string, shards int) *controller {
-	p := pipeline.New(pipeline.Options{Dir: dir, WatchWithoutClass: true, BackendShards: shards})
+// newController: external haproxy behind a (fake) master socket, reloads through the reload queue.
+func newController(dir, sock string, shards int) *controller {
+	master := cfgsm.NewMaster(sock)
+	p := pipeline.New(pipeline.Options{Dir: dir, WatchWithoutClass: true, BackendShards: shards, MasterSocket: sock})
 	inst := &recInst{Instance: p.Instance}
 	svc := services.VerifNewServices(p.Cfg, inst, p.ConvOpt, p.Reload)
-	return &controller{p: p, inst: inst, rec: reconciler.VerifNewReconciler(p.Cfg, svc, p.Watchers)}
+	return &controller{p: p, inst: inst, svc: svc, rec: reconciler.VerifNewReconciler(p.Cfg, svc, p.Watchers), master: master}
+}
+
+func (c *controller) close() {
+	c.master.Close()
+	c.p.Close()
+}
+
+// reloadPending: the reload queue holds an item (enqueued by HAProxyUpdate, or again by a failed reloadHAProxy)
+func (c *controller) reloadPending() bool { return c.p.Reload.Count() > c.fired }
+
+// fireReload is the reload queue handing its item to Services.reloadHAProxy.
+func (c *controller) fireReload() {
+	c.fired = c.p.Reload.Count()
+	_ = c.svc.VerifReloadHAProxy(context.Background())
 }
 
 // set of rparam values
@@ -128,6 +148,9 @@ func genLoop(rng *rand.Rand, wide bool) LoopInput {
 			case 7:
 				in.Script = append(in.Script, LoopEv{Kind: "leader"})
 			}
+			if rng.Intn(3) == 0 {
+				in.Script = append(in.Script, LoopEv{Kind: "reload"})
+			}
 		}
 	}
 	return in
@@ -145,6 +168,11 @@ func loopCorpus(rng *rand.Rand) []LoopInput {
 		// new events arrive between the failure and the retry, and are taken by another request first
 		{Shards: 3, Cluster: c, Script: []LoopEv{{Kind: "deliver"}, {Kind: "tick"}, {Kind: "tick", Full: true}, {Kind: "attempt", Full: true}, {Kind: "attempt"},
 			{Kind: "deliver"}, {Kind: "tick"}, {Kind: "attempt", Fault: "crt"}, {Kind: "deliver"}, {Kind: "leader"}, {Kind: "tick", Full: true}, {Kind: "attempt", Full: true, Fault: "main"}}},
+		// a queued reload fires and succeeds between a failed update and its retry (empty batch)
+		{Shards: 3, Cluster: c, Script: []LoopEv{{Kind: "deliver"}, {Kind: "tick"}, {Kind: "tick", Full: true}, {Kind: "attempt", Full: true}, {Kind: "attempt"},
+			{Kind: "deliver"}, {Kind: "tick"}, {Kind: "attempt", Fault: "main"}, {Kind: "reload"}, {Kind: "tick"}, {Kind: "attempt"}}},
+		{Shards: 0, Cluster: c, Script: []LoopEv{{Kind: "deliver"}, {Kind: "tick"}, {Kind: "tick", Full: true}, {Kind: "attempt", Full: true}, {Kind: "attempt"}, {Kind: "reload"},
+			{Kind: "deliver"}, {Kind: "tick"}, {Kind: "attempt"}, {Kind: "deliver"}, {Kind: "tick"}, {Kind: "attempt", Fault: "crt"}, {Kind: "reload"}, {Kind: "tick"}, {Kind: "attempt"}}},
 		// two failures in a row of the same request
 		{Shards: 0, Cluster: c, Script: []LoopEv{{Kind: "deliver"}, {Kind: "tick"}, {Kind: "attempt", Fault: "main"}, {Kind: "tick"}, {Kind: "attempt", Fault: "crt"}, {Kind: "deliver"}}},
 	}
@@ -174,10 +202,11 @@ func plant(path string) func() {
 func runLoop(base string, in LoopInput) loopResult {
 	_ = os.Chdir("/")
 	_ = os.RemoveAll(base)
-	a := newController(filepath.Join(base, "loopa"), in.Shards)
-	defer a.p.Close()
-	t := newController(filepath.Join(base, "loopt"), in.Shards) // the fault-free twin
-	defer t.p.Close()
+	_ = os.MkdirAll(base, 0o755)
+	a := newController(filepath.Join(base, "loopa"), filepath.Join(base, "ma.sock"), in.Shards)
+	defer a.close()
+	t := newController(filepath.Join(base, "loopt"), filepath.Join(base, "mt.sock"), in.Shards) // the fault-free twin
+	defer t.close()
 	batches := world.DecodeHistory(in.Cluster)
 	next := 0
 	var ready, delay rset
@@ -274,6 +303,16 @@ func runLoop(base string, in LoopInput) loopResult {
 				continue
 			}
 			attempt(i, ev.Full, ev.Fault)
+		case "reload":
+			// the reload queue fires (rate limiter / retry timer elapsed)
+			if !a.reloadPending() {
+				continue
+			}
+			a.fireReload()
+			if t.reloadPending() {
+				t.fireReload()
+			}
+			record("AReload", "None")
 		}
 	}
 	// the remaining changes are delivered and the queue is drained without fault
@@ -300,6 +339,13 @@ func runLoop(base string, in LoopInput) loopResult {
 				attempt(len(in.Script)+round, full, "")
 			}
 		}
+	}
+	for k := 0; k < 3 && a.reloadPending(); k++ {
+		a.fireReload()
+		record("AReload", "None")
+	}
+	for k := 0; k < 3 && t.reloadPending(); k++ {
+		t.fireReload()
 	}
 	if ready.p || ready.f || delay.p || delay.f {
 		fail("loop-never-drains", "requests are still pending after 10 fault-free rounds")
